@@ -17,6 +17,19 @@ use read_fonts::{FontData, FontRead};
 use std::fmt::Debug;
 use write_fonts::{dump_table, validate::Validate, FontWrite};
 
+/// cmap format 4: `glyph_id_array` extends to the end of the *data* (the reader does not use `length`), so inside
+/// a cmap table with several subtables it re-reads with the following subtables' bytes appended
+pub fn norm_cmap(w: &write_fonts::tables::cmap::Cmap, back: &mut write_fonts::tables::cmap::Cmap) {
+    use write_fonts::tables::cmap::CmapSubtable;
+    for (a, b) in w.encoding_records.iter().zip(back.encoding_records.iter_mut()) {
+        if let (CmapSubtable::Format4(x), CmapSubtable::Format4(y)) = (&*a.subtable, &mut *b.subtable) {
+            if y.glyph_id_array.len() > x.glyph_id_array.len() && y.glyph_id_array.starts_with(&x.glyph_id_array) {
+                y.glyph_id_array.truncate(x.glyph_id_array.len());
+            }
+        }
+    }
+}
+
 mod corpus;
 mod gen;
 mod walk;
@@ -57,6 +70,16 @@ fn short<T: Debug>(v: &T) -> String {
 /// The property's oracle on one value.  `label` identifies the generator (or corpus file + tag).
 /// Returns the compiled bytes when the value validated and compiled.
 pub fn roundtrip<T>(s: &mut Session, ty: &str, label: &str, v: &T) -> Option<Vec<u8>>
+where
+    T: FontWrite + Validate + PartialEq + Debug + for<'a> FontRead<'a>,
+{
+    roundtrip_with(s, ty, label, v, |_, _| {})
+}
+
+/// `norm(written, read_back)`: the property compares arrays whose length is implied by the end of the data "on the
+/// written prefix": `norm` truncates exactly those arrays of the re-read value to the written length when the
+/// written array is a prefix of the re-read one (nothing else may be touched).
+pub fn roundtrip_with<T>(s: &mut Session, ty: &str, label: &str, v: &T, norm: impl Fn(&T, &mut T)) -> Option<Vec<u8>>
 where
     T: FontWrite + Validate + PartialEq + Debug + for<'a> FontRead<'a>,
 {
@@ -103,6 +126,8 @@ where
         }
         Ok(Ok(v2)) => v2,
     };
+    let mut v2 = v2;
+    norm(v, &mut v2);
     let same = &v2 == v;
     s.oracle(
         &format!("value-roundtrip:{ty}"),
